@@ -60,6 +60,7 @@ inductive SType where
   | enum (cs : List (List UInt8 × List Bool))
       -- a type all of whose constructors are bare tags; Go holds the value as a string constant: (its bytes, tag)
   | outList                       -- OutList n of send-message actions (see `specOutList`)
+  | highloadDict                  -- HashmapE 16 SendMessageAction over the message list (see `hlToDict`)
   | chainOf (t : SType)
       -- action_list_extended$_ action:X prev:^(…) : a non-empty list, every element but the first behind one more
       -- reference; the list ends where there is no further element
@@ -87,7 +88,9 @@ def nameAliases : List (List Char × List Char) := [
   ("stateinit".toList, []),                     -- tlb.AccountState.AccountActive.StateInit : `_:StateInit`
   ("vm".toList, []),                            -- tlb.TrComputePhase.TrPhaseComputeVm.Vm   : the anonymous `^[ … ]`
   ("msgs".toList, []),
-  ("extendedactions".toList, "extended".toList)] -- wallet.MessageV5.*.ExtendedActions               : extended                          -- tlb.Transaction.Msgs                     : the anonymous `^[ … ]`
+  ("extendedactions".toList, "extended".toList),
+  ("rawmessages".toList, "payload".toList),     -- wallet.HighloadV2Message.RawMessages  : payload
+  ("boundedqueryid".toList, "queryid".toList)]  -- wallet.HighloadV2Message.BoundedQueryID: query_id -- wallet.MessageV5.*.ExtendedActions               : extended                          -- tlb.Transaction.Msgs                     : the anonymous `^[ … ]`
 
 /-- the Go field at a position carries the name the schema gives to the field at that position -/
 def nameAgrees (goName schemaName : String) : Bool :=
@@ -268,6 +271,12 @@ def specChunk (senv : SEnv) : Nat → SType → Val → Option Chunk
       | .bytes bs => (cs.find? fun c => c.1 == bs).map fun c => (c.2, [])
       | _ => none)
     | .outList => specOutList v
+    | .highloadDict =>
+      -- message i ↦ key i; the value `send_msg#_ mode:uint8 message:^MessageRelaxed` is the cell content `hlToDict`
+      -- builds (8 bits, one reference)
+      (match hlToDict v with
+      | some d => specChunk senv fuel (.hashmapE 16 (.nat 16) .any) d
+      | none => none)
     | .chainOf t => (match v with
       | .cons x rest => chainStep (specChunk senv fuel t x) rest (specChunk senv fuel (.chainOf t) rest)
       | _ => none)
@@ -643,6 +652,14 @@ def WalletV5R1Body : SType := .sum
     (.cons "extended" (.maybe W5ExtendedActions) .nil)))))
   .nil)))
 
+/-- abi/schemas/wallets.xml:
+    send_msg#_ mode:uint8 message:^MessageRelaxed = SendMessageAction;
+    (highload_wallet_signed_v2) signed#_ signature:bits512 subwallet_id:uint32 query_id:uint64
+      payload:(HashmapE 16 SendMessageAction) = ExternalMsgBody;
+the part after the signature (the signature is `SignedMsgBody`) -/
+def HighloadV2Body : SType := .seq
+  (.cons "subwallet_id" (.nat 32) (.cons "query_id" (.nat 64) (.cons "payload" .highloadDict .nil)))
+
 def senvList : List (String × SType) := [
   ("ExtraCurrencyCollection", ExtraCurrencyCollection), ("CurrencyCollection", CurrencyCollection),
   ("MsgAddress", MsgAddress), ("CommonMsgInfo", CommonMsgInfo), ("TickTock", TickTock), ("SimpleLib", SimpleLib), ("StateInit", StateInit),
@@ -656,7 +673,7 @@ def senvList : List (String × SType) := [
   ("TrActionPhase", TrActionPhase), ("TrBouncePhase", TrBouncePhase), ("SplitMergeInfo", SplitMergeInfo),
   ("TransactionDescr", TransactionDescr), ("HashUpdate", HashUpdate), ("Transaction", Transaction),
   ("OutList", OutList), ("W5ExtendedAction", W5ExtendedAction), ("W5ExtendedActions", W5ExtendedActions),
-  ("WalletV5R1Body", WalletV5R1Body)]
+  ("WalletV5R1Body", WalletV5R1Body), ("HighloadV2Body", HighloadV2Body)]
 
 def senv : SEnv := fun n => (senvList.find? (·.1 == n)).map (·.2)
 
